@@ -113,6 +113,29 @@ let handle (p : string) : string =
             done
           done;
           !acc
+        end else if String.length os > 2 && String.sub os 0 2 = "B," then begin
+          (* back-pressure: x stops reading (for the daemon that is a client whose pipe is broken as
+             soon as its buffers are full), src streams n identical frames, x then drains, sees the
+             end of the stream and stops.  The model: x is closed, then n x (stream, dispatch). *)
+          let f = Array.of_list (String.split_on_char ',' os) in
+          let src = n_of_int (ios f.(1) mod ncl) and x = n_of_int (ios f.(2) mod ncl) in
+          let u = n_of_string f.(3) and pr = n_of_string f.(4) and n = ios f.(5) in
+          let d = bytes_of_hex f.(6) in
+          ignore (do_step (ODisc x));
+          let acc = ref [] in
+          for _ = 1 to n do
+            ignore (do_step (OSend (false, false, src, u, Some pr, d)));
+            ignore (do_step (OSrv src));
+            for c = 0 to ncl - 1 do
+              while cli_can !st (n_of_int c) do
+                let (_, e) = do_step (OCli (n_of_int c)) in acc := !acc @ e done
+            done
+          done;
+          incr ndisc;
+          let d512 = List.filteri (fun k _ -> k < 512) d in
+          !acc @
+          [Printf.sprintf "%d.flood:%s:%d:%s" (i x) (string_of_n u) (min (i pr) 200) (hex_of_bytes d512);
+           Printf.sprintf "%d.closed" (i x)]
         end else begin
           match parse_op ncl os with
           | None -> ["bad-op"]
@@ -140,7 +163,7 @@ let handle (p : string) : string =
     else
       (* sigpipe: the daemon ignores SIGPIPE (OlaServer::Init) and no write to a half-closed client
          ever raises it: always 0 *)
-      Printf.sprintf "obs=%s;cnt=%s;once=%s;sigpipe=0;srv=%s;%s"
+      Printf.sprintf "obs=%s;cnt=%s;once=%s;sigpipe=0;fdleak=0;srv=%s;%s"
         (String.concat "/" (List.rev !obs))
         (if cnt = [] then "-" else String.concat "," (List.map string_of_int cnt))
         (bool01 once) (String.concat "/" (List.rev !srv)) cls
